@@ -135,3 +135,125 @@ Theorem C10_replicas : forall l st1 st2 id,
   is_live (replay l st1) id = is_live (replay l st2) id.
 Proof. exact replicas_markers. Qed.
 Print Assumptions C10_replicas.
+
+(* ---- the IRC model is an instance (IrcProofs/MarkerFrame.v, Refine.v, RefineSys.v) ---- *)
+
+(* ================================================================================================
+   C10 on the IRC model itself (IrcProofs/MarkerFrame.v, IrcProofs/Refine.v): the IRC state machine
+   of Irc/Apply.v REFINES the marker machine above — the oracle (o_deaths, o_created) is what the IRC
+   step does — so the statements above are statements about the IRC model; and the C10 statements
+   hold of the IRC model directly.  Hypothesis throughout: the entry / history is well-formed
+   (Top.wf_entry: fresh CreateSession ids, services lines conform to the protocol — needed, see
+   C10_irc_needs_conformance). *)
+From stdpp Require Import gmap.
+From RV Require Import Irc.Str Irc.State Irc.Monad Irc.Cmds Irc.Apply IrcProofs.Top IrcProofs.MarkerFrame IrcProofs.Refine.
+From RV Require IrcProofs.Outputs IrcProofs.Examples.
+
+(* the marker frame: ProcessMessage neither writes marker or secret of a client session nor adds or
+   removes one (all 55 handlers) *)
+Theorem C10_irc_marker_frame_handlers : forall e k ra ircmsg sv r,
+  nick_ok sv k ircmsg ->
+  match process_message e k ra ircmsg sv r with
+  | Ok (_, sv', _) => forall id : N, mk <$> (sv_sessions sv' !! (id, 0%N)) = mk <$> (sv_sessions sv !! (id, 0%N))
+  | _ => True
+  end.
+Proof. exact fr_process_message. Qed.
+Print Assumptions C10_irc_marker_frame_handlers.
+
+(* the simulation, one entry: the abstraction relation is preserved with the oracle derived from the IRC step *)
+Theorem C10_irc_refines : forall e sv st en sv',
+  abs_rel sv st -> wf_entry sv en -> entry_result (apply_entry e sv en) = Some sv' ->
+  abs_rel sv' (Post.apply (oracle_of sv sv' en) st (conv en)).
+Proof. exact sim_step. Qed.
+Print Assumptions C10_irc_refines.
+
+(* ... and whole histories from the initial states; both machines process the same entries *)
+Theorem C10_irc_refines_history : forall e net pw leader es sv',
+  wf_history e (init_server net) es -> run e (init_server net) es = Some sv' ->
+  abs_rel sv' (Post.replay (trace e (init_server net) es) (post_init pw leader)) /\
+  Post.replay_proc (trace e (init_server net) es) (post_init pw leader) = map conv (irc_proc e (init_server net) es).
+Proof. exact irc_refines_marker_machine. Qed.
+Print Assumptions C10_irc_refines_history.
+
+(* Post.processes is exactly "the IRC step runs ProcessMessage"; an entry that is not processed is silent *)
+Theorem C10_irc_processes : forall sv st en, abs_rel sv st -> Post.processes st (conv en) = irc_processes sv en.
+Proof. exact processes_agree. Qed.
+Print Assumptions C10_irc_processes.
+Theorem C10_irc_unprocessed_silent : forall e sv st en sv' out,
+  abs_rel sv st -> Post.processes st (conv en) = false -> apply_entry e sv en = OOk sv' out -> out = [].
+Proof. exact post_unprocessed_silent. Qed.
+Print Assumptions C10_irc_unprocessed_silent.
+
+(* (a) a retry is a no-op of the IRC model *)
+Theorem C10_irc_retry_is_noop : forall e net es sv i un (sid cmid : N) ra data,
+  run e (init_server net) es = Some sv -> cmid <> 0%N -> last_post_message sv sid = cmid ->
+  apply_entry e sv (EMessage i un sid cmid ra data) = OOk sv [] /\
+  irc_processes sv (EMessage i un sid cmid ra data) = false.
+Proof. exact irc_retry_is_noop_reachable. Qed.
+Print Assumptions C10_irc_retry_is_noop.
+
+(* (b) the marker rule of the IRC model *)
+Theorem C10_irc_marker_set : forall e sv en sv' (sid c : N),
+  wf_entry sv en -> client_msg_of en = Some (sid, c) -> entry_result (apply_entry e sv en) = Some sv' ->
+  is_Some (sv_sessions sv' !! (sid, 0%N)) -> last_post_message sv' sid = c.
+Proof. exact irc_marker_set. Qed.
+Print Assumptions C10_irc_marker_set.
+Theorem C10_irc_marker_only : forall e sv en sv' (sid : N),
+  wf_entry sv en -> entry_result (apply_entry e sv en) = Some sv' ->
+  last_post_message sv' sid <> last_post_message sv sid ->
+  client_msg_of en = Some (sid, last_post_message sv' sid) \/
+  (is_Some (sv_sessions sv !! (sid, 0%N)) /\ sv_sessions sv' !! (sid, 0%N) = None).
+Proof. exact irc_marker_only. Qed.
+Print Assumptions C10_irc_marker_only.
+Theorem C10_irc_marker_frame : forall e sv en sv' (sid : N) (s s' : session),
+  wf_entry sv en -> entry_result (apply_entry e sv en) = Some sv' ->
+  sv_sessions sv !! (sid, 0%N) = Some s -> sv_sessions sv' !! (sid, 0%N) = Some s' ->
+  s_auth s' = s_auth s /\ (s_cmid s' = s_cmid s \/ client_msg_of en = Some (sid, s_cmid s')).
+Proof. exact irc_marker_frame. Qed.
+Print Assumptions C10_irc_marker_frame.
+
+(* (c) processed once, on the IRC model: state, OUTPUT and processed entries *)
+Theorem C10_irc_processed_once : forall e sv0 l1 e1 l2 e2 (sid c : N),
+  wf_history e sv0 (l1 ++ e1 :: l2 ++ [e2]) ->
+  client_msg_of e1 = Some (sid, c) -> c <> 0%N -> Forall (irc_tail_ok sid c) l2 -> irc_is_copy sid c e2 = true ->
+  run_out e sv0 (l1 ++ e1 :: l2 ++ [e2]) = run_out e sv0 (l1 ++ e1 :: l2) /\
+  irc_proc e sv0 (l1 ++ e1 :: l2 ++ [e2]) = irc_proc e sv0 (l1 ++ e1 :: l2).
+Proof. exact irc_processed_once. Qed.
+Print Assumptions C10_irc_processed_once.
+Theorem C10_irc_duplicates_invisible : forall e sid c, c <> 0%N -> forall l sv,
+  irc_inv sid c sv -> wf_history e sv l -> Forall (irc_tail_ok sid c) l ->
+  run_out e sv l = run_out e sv (irc_drop_copies sid c l) /\
+  irc_proc e sv l = irc_proc e sv (irc_drop_copies sid c l).
+Proof. exact irc_duplicates_invisible. Qed.
+Print Assumptions C10_irc_duplicates_invisible.
+
+(* FINDING: without conformance of services lines the marker frame is false — a services link that
+   introduces a pseudo-client whose nickname has FNV-1 hash 0 overwrites its own session (secret "",
+   marker 0), and the retry of that very message is processed again *)
+Theorem C10_irc_needs_conformance :
+  fnv64 zero_nick = 0%N /\
+  wf_history Examples.ex_env (init_server "n") zh_history /\
+  exists sv sv' s s',
+    run Examples.ex_env (init_server "n") zh_history = Some sv /\
+    client_msg_of zh_entry = Some (2%N, 13%N) /\
+    apply_entry Examples.ex_env sv zh_entry = OOk sv' [] /\
+    sv_sessions sv !! (2%N, 0%N) = Some s /\ sv_sessions sv' !! (2%N, 0%N) = Some s' /\
+    (s_auth s = "0123456789abcdef" /\ s_cmid s = 12%N /\ s_server s = true) /\
+    (s_auth s' = "" /\ s_cmid s' = 0%N /\ s_server s' = false) /\
+    irc_processes sv' zh_entry = true /\ entry_out (apply_entry Examples.ex_env sv' zh_entry) <> [].
+Proof. exact marker_frame_needs_conformance_refuted. Qed.
+Print Assumptions C10_irc_needs_conformance.
+
+(* non-vacuity: the hypotheses of C10_irc_processed_once hold of a concrete history (three copies of a post,
+   a message of death among them); the simulation computed on Examples.ex_history is Refine.ex_simulation *)
+Theorem C10_irc_nonvacuous :
+  wf_history Examples.ex_env (init_server "robustirc.net") (ex_l1 ++ ex_e1 :: ex_l2 ++ [ex_e2]) /\
+  client_msg_of ex_e1 = Some (4%N, 24%N) /\ Forall (irc_tail_ok 4 24) ex_l2 /\ irc_is_copy 4 24 ex_e2 = true /\
+  match run_out Examples.ex_env (init_server "robustirc.net") (ex_l1 ++ ex_e1 :: ex_l2 ++ [ex_e2]) with
+  | Some (_, outs) => List.length outs = 35
+  | None => False
+  end /\
+  map Outputs.entry_id (irc_proc Examples.ex_env (init_server "robustirc.net") (ex_l1 ++ ex_e1 :: ex_l2 ++ [ex_e2]))
+    = [2; 3; 5; 6; 7; 8; 9; 10; 13]%N.
+Proof. exact ex_processed_once_hyps. Qed.
+Print Assumptions C10_irc_nonvacuous.
